@@ -304,7 +304,7 @@ CtorFails(name, ev) ==
 RejectedAbout(o, flag) == Has(o, "compile") /\ o.compile.outcome = "reject" /\ flag \in Range(o.compile.flags)
 C14(c, o) ==
   IF HasS(c) /\ ValidAll(o) /\ RetOk(o) /\ RejectedAbout(o, "entry")
-  THEN [ dom |-> TRUE, fails |-> { "the module does not compile and the compiler points at the entry point items: " \o o.compile.errors[1] } ] ELSE
+  THEN [ dom |-> TRUE, fails |-> { "the module does not compile and the compiler points at the entry point items [predicted=" \o ToJson(CP!PredictedCauses(c.S, c.opts)) \o "]: " \o o.compile.errors[1] } ] ELSE
   IF ~(HasS(c) /\ ValidAll(o) /\ RetOk(o) /\ Compiled(o)) THEN NoVerdict ELSE
   LET S == c.S
       E == S.entries
